@@ -26,7 +26,9 @@ def main() -> int:
     from vf import common
 
     common.setup_path()
-    logging.disable(logging.CRITICAL)
+    from vf import logcfg
+
+    logcfg.install()
     mod = importlib.import_module(f"vf.props.{a.prop.lower()}")
     ctx = common.Ctx(a.prop, a.shard, a.nshards, a.tier, a.seed)
     from vf import linereach
@@ -37,6 +39,9 @@ def main() -> int:
     except Exception:  # noqa: BLE001
         ctx.res.inconclusive.append("harness exception: " + traceback.format_exc()[-1500:])
     ctx.res.sets.setdefault("library_lines_reached", set()).update(linereach.stop())
+    ctx.res.count("advisory/library_log_records_formatted", logcfg.RECORDS["n"])
+    for fe in logcfg.FORMAT_ERRORS:
+        ctx.res.seen("advisory_log_format_errors", fe)
     with open(a.out, "w") as f:
         json.dump(common.jsonable(ctx.res.to_json()), f)
     faulthandler.cancel_dump_traceback_later()
